@@ -337,6 +337,7 @@ func (p *Prog) WithRunePredicates(fn *ssa.Function) []*ssa.Function {
 		return ok && rb.Kind() == types.Bool
 	}
 	seen := map[*ssa.Function]bool{}
+	via := map[*ssa.Function]bool{}
 	var out []*ssa.Function
 	var add func(f *ssa.Function, d int)
 	add = func(f *ssa.Function, d int) {
@@ -354,6 +355,27 @@ func (p *Prog) WithRunePredicates(fn *ssa.Function) []*ssa.Function {
 					for _, op := range in.Operands(nil) {
 						if h, ok := (*op).(*ssa.Function); ok && isPred(h) {
 							add(h, d-1)
+						}
+					}
+					// a predicate may be handed over by a private helper of the same package (a constructor
+					// that stores it into the builder): its references count, the helper's own code does not
+					if c, ok := in.(ssa.CallInstruction); ok {
+						if h := StaticCallee(c); h != nil && h.Blocks != nil && p.InRepo(h) && !isPred(h) && PkgOf(h) == PkgOf(fn) && !via[h] && d > 1 {
+							via[h] = true
+							for _, hf := range WithClosures(h) {
+								for _, hb := range hf.Blocks {
+									for _, hin := range hb.Instrs {
+										for _, op := range hin.Operands(nil) {
+											if ph, ok := (*op).(*ssa.Function); ok && isPred(ph) {
+												add(ph, d-2)
+											}
+										}
+									}
+								}
+								if hf != h && isPred(hf) {
+									add(hf, d-2)
+								}
+							}
 						}
 					}
 				}
